@@ -55,7 +55,26 @@ def needs_of(notes):
     return "see notes.md"
 
 
+def run_checks_scratch(patch):
+    """The same 20 quick checks on a scratch copy of /repo/kingdon with the patch applied (KVERIF_REPO), so that many
+    changes can be evaluated in parallel; equivalent to applying the patch to /repo (the checks read only kingdon/)."""
+    sys.path.insert(0, os.path.join(HERE, "tools"))
+    import eval_patch
+    res = eval_patch.run(patch)
+    if "error" in res:
+        return None
+    out = {}
+    for p, v in res.items():
+        rules = sorted({m.group(1) for l in v["violations"] for m in [re.search(r"rule=(\S+) construct=", l)] if m})
+        out[p] = {"exit": v["exit"], "verdict": "VIOLATION" if v["exit"] == 1 else "ANALYSIS-ERROR", "rules": rules,
+                  "analysis_errors": v["errors"][:3]}
+    return out
+
+
 def main():
+    scratch = "--scratch" in sys.argv[1:]
+    if scratch:
+        sys.argv.remove("--scratch")
     records = []
     for f in sys.argv[1:]:
         for line in open(f):
@@ -64,6 +83,7 @@ def main():
             except ValueError:
                 pass
     subprocess.run(["git", "-C", "/repo", "diff", "--quiet"], check=True)   # /repo must be clean
+    pending = []
     for r in records:
         src = r["dir"]
         sid = os.path.basename(src.rstrip("/"))
@@ -76,6 +96,9 @@ def main():
             if os.path.exists(os.path.join(src, name)):
                 shutil.copy(os.path.join(src, name), os.path.join(dst, name))
         patch = os.path.join(dst, "patch.diff")
+        if scratch:
+            pending.append((r, sid, dst, patch))
+            continue
         ap = subprocess.run(["git", "-C", "/repo", "apply", patch], capture_output=True, text=True)
         if ap.returncode:
             print(f"{sid}: patch does not apply to /repo: {ap.stderr[:200]}")
@@ -84,6 +107,19 @@ def main():
             checks = run_checks()
         finally:
             subprocess.run(["git", "-C", "/repo", "checkout", "--", "."], check=True)
+        write_meta(r, sid, dst, checks, False)
+    if scratch:
+        import concurrent.futures
+        with concurrent.futures.ThreadPoolExecutor(max_workers=6) as ex:
+            for (r, sid, dst, patch), checks in zip(pending, ex.map(lambda t: run_checks_scratch(t[3]), pending)):
+                if checks is None:
+                    print(f"{sid}: patch does not apply")
+                    continue
+                write_meta(r, sid, dst, checks, True)
+
+
+def write_meta(r, sid, dst, checks, scratch):
+    if True:
         notes = open(os.path.join(dst, "notes.md")).read() if os.path.exists(os.path.join(dst, "notes.md")) else ""
         prop = sid.split("_")[0]
         meta = {
@@ -98,8 +134,10 @@ def main():
                 "demo_tail_with_change": (r.get("demo_patched_tail") or "")[-200:],
                 "suite_with_change": r.get("suite_tail"),
             },
-            "checks_run": "git -C /repo apply seeded/%s/patch.diff; python3-vt -m kverif check C01..C20 --tier quick; "
-                          "git -C /repo checkout -- ." % sid,
+            "checks_run": ("scratch copy of /repo/kingdon with seeded/%s/patch.diff applied (KVERIF_REPO); python3-vt -m kverif check "
+                           "C01..C20 --tier quick" % sid) if scratch else
+                          ("git -C /repo apply seeded/%s/patch.diff; python3-vt -m kverif check C01..C20 --tier quick; "
+                           "git -C /repo checkout -- ." % sid),
             "reported_by": {p: {"verdict": v["verdict"], "rules": v["rules"]} for p, v in checks.items()},
             "caught_by_own_property_check": checks.get(prop, {}).get("verdict") == "VIOLATION",
             "caught_by_any_check": any(v["verdict"] == "VIOLATION" for v in checks.values()),
